@@ -510,6 +510,75 @@ def c14_entry_sequence(first: int, second: int, boost: int) -> bool:
     return ok
 
 
+def _write_xml(folder, version):
+    """a minimal Doxygen XML folder documenting gt::Pose::run(key); version None -> no folder content at all"""
+    import shutil
+    from harness.c17 import mk_member, _compound_file
+    shutil.rmtree(folder, ignore_errors=True)
+    os.makedirs(folder)
+    if version is None:
+        return
+    idx = ET.Element("doxygenindex")
+    c = ET.SubElement(idx, "compound", {"refid": "classgt_1_1Pose", "kind": "class"})
+    ET.SubElement(c, "name").text = "gt::Pose"
+    with open(os.path.join(folder, "index.xml"), "w") as f:
+        f.write(ET.tostring(idx, encoding="unicode"))
+    with open(os.path.join(folder, "classgt_1_1Pose.xml"), "w") as f:
+        f.write(_compound_file("gt::Pose", "classgt_1_1Pose", "class", [mk_member("run", [("key", False)], "documentation %s of run" % version)]))
+
+
+XML_STEPS = [(None, "v1"), ("v1", "v2"), ("v1", None), ("v1", "v1"), ("v2", "v1")]
+
+
+def c14_xml_refresh(step: int, chdir: int, entry: int) -> bool:
+    """
+    One wrapper with Doxygen XML, used twice while the XML on disk changes in between (created, regenerated, removed,
+    unchanged), with the XML folder given as an absolute path or as a relative path and the working directory changed to
+    a second build tree: the second output carries the documentation that is on disk NOW, exactly as a fresh wrapper's does.
+    (real temporary directories)
+    pre: 0 <= step < len(XML_STEPS) and 0 <= chdir <= 1 and 0 <= entry <= 1
+    post: _
+    """
+    step, chdir, entry = pick(step, 0, len(XML_STEPS)), pick(chdir, 0, 2), pick(entry, 0, 2)
+    with concrete():
+        import shutil
+        import tempfile
+        text = "namespace gt { class Pose { Pose(); double run(int key) const; }; }"
+        before, after = XML_STEPS[step]
+        root = tempfile.mkdtemp(prefix="c14x_")
+        cwd = os.getcwd()
+        try:
+            a, b = os.path.join(root, "buildA"), os.path.join(root, "buildB")
+            os.makedirs(a); os.makedirs(b)
+            _write_xml(os.path.join(a, "xml"), before)
+            xml = os.path.join(a, "xml") if not chdir else "xml"
+            os.chdir(a)
+
+            def mk():
+                return PybindWrapper(module_name="mod", top_module_namespaces=[''], ignore_classes=[''], module_template=pipe.PYBIND_TPL, xml_source=xml)
+
+            def produce(w):
+                return w.wrap_file(text, module_name="mod") if entry == 0 else pipe.pybind(text, wrapper=w)
+            w = mk()
+            produce(w)
+            if chdir:
+                _write_xml(os.path.join(b, "xml"), after)
+                os.chdir(b)
+            else:
+                _write_xml(os.path.join(a, "xml"), after)
+            got = produce(w)
+            want = produce(mk())
+            ok = got == want or _fail(xml_before=before, xml_after=after, relative_path_and_chdir=bool(chdir),
+                                      diff=[(x, y) for x, y in zip(got.split("\n"), want.split("\n")) if x != y][:3])
+            if ok and after is not None and ("documentation %s of run" % after) not in got:
+                ok = _fail(xml_after=after, problem="the documentation on disk is not in the output", tail=got[-300:])
+        finally:
+            os.chdir(cwd)
+            shutil.rmtree(root, ignore_errors=True)
+    reached({"xml": XML_STEPS[step], "chdir": chdir})
+    return ok
+
+
 def c14_repeat_fresh(t: int, boost: int) -> bool:
     """
     Two fresh wrappers of each kind on the same text give identical results (no module-level state).
@@ -547,5 +616,7 @@ def conds(tier):
                 bounds="%d earlier (text, ignore list) x %d later texts x serialization, compared with a pristine interpreter" % (len(ISO_FIRST), len(ISO_SECOND))),
         xh.Cond(M, "c14_entry_sequence", t(200, 600), kind=sb, examples=["first=1, second=0, boost=0", "first=2, second=3, boost=1", "first=0, second=1, boost=0", "first=3, second=4, boost=1"],
                 bounds="%d x %d ordered pairs of pybind entry points on one wrapper x serialization" % (len(ENTRY_KINDS), len(ENTRY_KINDS))),
+        xh.Cond(M, "c14_xml_refresh", t(200, 600), kind=sb, examples=["step=0, chdir=0, entry=0", "step=1, chdir=1, entry=0", "step=2, chdir=0, entry=1", "step=4, chdir=1, entry=1"],
+                bounds="%d changes of the XML on disk between two calls x absolute | relative path with a changed working directory x 2 entry points" % len(XML_STEPS)),
         xh.Cond(M, "c14_repeat_fresh", t(120, 600), kind=sb, examples=["t=2, boost=1"], bounds="%d texts x serialization" % NT),
     ]
